@@ -1,6 +1,7 @@
 package main
 
 import (
+	"time"
 	"fmt"
 	"go/types"
 	"os"
@@ -394,11 +395,12 @@ func propC17(a *Analysis, r *Registry) {
 					}
 				}
 				okForm := false
+				started := time.Now()
 				for _, cd := range cands {
 					d, u := cd.d, cd.u
 					{
-						if okForm {
-							break
+						if okForm || time.Since(started) > 45*time.Second {
+							break // (bounded: an unrecognised result is reported, not searched for indefinitely)
 						}
 						_, dn := fc.Recurrence(d)
 						_, un := fc.Recurrence(u)
